@@ -273,11 +273,154 @@ func driveRandomLegal(c *driverCtx, prop string) {
 	}
 }
 
+// driveLongValues: strings, byte strings and map keys whose length prefixes take two and three bytes (TLC's
+// vectors are short), decoded into the full target and into targets that lack some of the fields (so the long
+// values are skipped). Same judgement as the random legal files: TLC decodes the bytes itself.
+type lvFull struct {
+	S string           `json:"s"`
+	B []byte           `json:"b"`
+	M map[string]int64 `json:"m"`
+	A int64            `json:"a"`
+	T *string          `json:"t"`
+	Z int64            `json:"z"`
+}
+
+func driveLongValues(c *driverCtx, prop string) {
+	const sj = `{"type":"record","name":"LV","fields":[{"name":"s","type":"string"},{"name":"b","type":"bytes"},{"name":"m","type":{"type":"map","values":"long"}},{"name":"a","type":"long"},{"name":"t","type":["null","string"]},{"name":"z","type":"long"}]}`
+	sn, err := schemaNodeFromJSON([]byte(sj))
+	if err != nil {
+		return
+	}
+	targets := []reflect.Type{
+		reflect.TypeOf(lvFull{}),
+		reflect.TypeOf(struct {
+			A int64 `json:"a"`
+			Z int64 `json:"z"`
+		}{}),
+		reflect.TypeOf(struct {
+			B []byte `json:"b"`
+			Z int64  `json:"z"`
+		}{}),
+		reflect.TypeOf(struct {
+			S string  `json:"s"`
+			T *string `json:"t"`
+			Z int64   `json:"z"`
+		}{}),
+		reflect.TypeOf(struct {
+			M map[string]int64 `json:"m"`
+			Z int64            `json:"z"`
+		}{}),
+		reflect.TypeOf(struct{}{}),
+	}
+	text := func(n int) []byte {
+		b := make([]byte, n)
+		for i := range b {
+			b[i] = byte('a' + c.rng.Intn(26))
+		}
+		return b
+	}
+	lengths := []int{63, 64, 127, 128, 8191, 8192, 8193, 16383, 16384}
+	if c.thorough() {
+		lengths = append(lengths, 65, 1000, 8190, 8194, 16385, 70000)
+	}
+	for _, L := range lengths {
+		for which := 0; which < 4; which++ { // which of s, b, map key, t carries the long value
+			recs := make([]any, 2)
+			var raw []byte
+			for k := range recs {
+				ln := [4]int{k, k + 1, 1, 2}
+				ln[which] = L + k
+				var b []byte
+				b = appendVar(b, int64(ln[0]))
+				b = append(b, text(ln[0])...)
+				b = appendVar(b, int64(ln[1]))
+				b = append(b, payload(c.rng, ln[1])...)
+				b = appendVar(b, 1)
+				b = appendVar(b, int64(ln[2]))
+				b = append(b, text(ln[2])...)
+				b = appendVar(b, int64(-5-k))
+				b = appendVar(b, 0)
+				b = appendVar(b, int64(1000+k))
+				b = appendVar(b, 1)
+				b = appendVar(b, int64(ln[3]))
+				b = append(b, text(ln[3])...)
+				b = appendVar(b, int64(77+k))
+				recs[k] = byteList(b)
+				raw = append(raw, b...)
+			}
+			for ti, t := range targets {
+				codec := codecs3[(ti+which)%3]
+				file := buildContainer([]byte(sj), codec, true, []byte("0123456789abcdef"), [][2]any{{2, raw}})
+				r := readBack(t, file, readerKinds[(ti+which)%4], ti%2 == 0, -1, nil)
+				c.rec.NewCase()
+				c.rec.Emit(fmt.Sprintf("%s|long-values|len%d|field%d|target%d", prop, L, which, ti), map[string]any{
+					"op": "rand_read", "mode": prop, "schema": sn, "records": recs, "target": projectType(t), "codec": codec,
+					"delivered": orEmpty(r.delivered), "recheck": orEmpty(r.recheck), "err": errString(r.err), "panic": r.panicked})
+			}
+		}
+	}
+	c.rec.Realised("len-3-bytes-values")
+	// items that take no bytes at all (null, records without fields): the item count says nothing about the
+	// bytes that follow
+	const zj = `{"type":"record","name":"ZW","fields":[{"name":"n","type":{"type":"array","items":"null"}},{"name":"e","type":{"type":"array","items":{"type":"record","name":"E","fields":[]}}},{"name":"mn","type":{"type":"map","values":"null"}},{"name":"z","type":"long"}]}`
+	zn, err := schemaNodeFromJSON([]byte(zj))
+	if err != nil {
+		return
+	}
+	ztargets := []reflect.Type{
+		reflect.TypeOf(struct {
+			Z int64 `json:"z"`
+		}{}),
+		reflect.TypeOf(struct {
+			E []struct{} `json:"e"`
+			Z int64      `json:"z"`
+		}{}),
+		reflect.TypeOf(struct{}{}),
+	}
+	for _, cnt := range []int{1, 2, 5, 64, 300} {
+		for sized := 0; sized < 2; sized++ {
+			recs := make([]any, 2)
+			var raw []byte
+			for k := range recs {
+				var b []byte
+				arr := func(n int) {
+					if n > 0 && sized == 1 {
+						b = appendVar(b, int64(-n))
+						b = appendVar(b, 0) // byte size of n zero-width items
+					} else if n > 0 {
+						b = appendVar(b, int64(n))
+					}
+					b = appendVar(b, 0)
+				}
+				arr(cnt + k)
+				arr(cnt)
+				b = appendVar(b, 1) // one map entry "k" -> null
+				b = appendVar(b, 1)
+				b = append(b, 'k')
+				b = appendVar(b, 0)
+				b = appendVar(b, int64(40+k))
+				recs[k] = byteList(b)
+				raw = append(raw, b...)
+			}
+			for ti, t := range ztargets {
+				codec := codecs3[(ti+sized)%3]
+				file := buildContainer([]byte(zj), codec, true, []byte("0123456789abcdef"), [][2]any{{1, raw[:len(raw)/2]}, {1, raw[len(raw)/2:]}})
+				r := readBack(t, file, readerKinds[(ti+cnt)%4], ti%2 == 0, -1, nil)
+				c.rec.NewCase()
+				c.rec.Emit(fmt.Sprintf("%s|zero-width-items|count%d|sized%d|target%d", prop, cnt, sized, ti), map[string]any{
+					"op": "rand_read", "mode": prop, "schema": zn, "records": recs, "target": projectType(t), "codec": codec,
+					"delivered": orEmpty(r.delivered), "recheck": orEmpty(r.recheck), "err": errString(r.err), "panic": r.panicked})
+			}
+		}
+	}
+}
+
 func driveVectors(c *driverCtx, prop string) error {
 	if prop == "C03" {
 		driveCorpus(c, prop)
 		driveRandomLegal(c, prop)
 	}
+	driveLongValues(c, prop)
 	if c.cases == "" {
 		return fmt.Errorf("%s needs TLC-generated vectors (-cases)", prop)
 	}
